@@ -1,12 +1,161 @@
 import GrinVerif.Drv.Common
-/-! Driver glue for the `kv` domain (line protocol handler). -/
+import GrinVerif.Model.Kv
+/-! Driver glue for the `kv` domain (property C18): folds the model `GV.Kv.St` over the op lines
+of `harness/src/bin/kv.rs` and recomputes every answer.
+
+Reads (`get`, `exists`, `iter`, `read-outside …`, `it-next`, `obs`) and the success of writes /
+commits are values the property itself fixes (textbook nested-transaction map; the model's read
+functions are proven equal to that specification in `Props/C18.lean`), so they are compared with
+`cmpSpec`.  Error answers on malformed keys / unknown databases are internal observables
+(`cmpModel`). -/
 namespace GV.Drv.KvD
-open GV GV.Drv
+open GV GV.Drv GV.Kv
 
 structure St where
-  dummy : Unit := ()
+  m : Kv.St := {}
+  /-- registered databases (model ids: 0 = default, p+1 = `Some(p)`) -/
+  dbs : List Nat := []
+  /-- remaining items of the snapshot iterator held by the other thread -/
+  held : Option (List (Bytes × Val)) := none
 
-def handle (st : St) (_args : List String) (_impl : String) : St × Verdict :=
-  (st, .unknown)
+def parseDb (s : String) : Option Nat :=
+  if s = "def" then some 0 else (nat? s).map (· + 1)
+
+def showDb (d : Nat) : String := if d = 0 then "def" else toString (d - 1)
+
+def fnv32 (b : Bytes) : Nat :=
+  b.foldl (fun h x => ((h ^^^ x) * 16777619) % 4294967296) 0x811c9dc5
+
+def hex8 (n : Nat) : String :=
+  String.ofList ((List.range 8).map fun i => hexChar (n / 16^(7 - i) % 16))
+
+/-- values longer than 48 bytes are shown as length + FNV-1a-32 -/
+def showVal (v : Bytes) : String :=
+  if v.length > 48 then s!"L{v.length}:{hex8 (fnv32 v)}" else toHex v
+
+/-- value token: hex, or `r<byte>x<len>` for a run of one byte -/
+def parseVal (s : String) : Option Bytes :=
+  if s.startsWith "r" then
+    match ((s.drop 1).toString.splitOn "x") with
+    | [b, n] => match parseHex b, nat? n with
+      | some [x], some n => some (List.replicate n x)
+      | _, _ => none
+    | _ => none
+  else parseHex s
+
+def showItems (l : List (Bytes × Val)) : String :=
+  "[" ++ ",".intercalate (l.map fun e => toHex e.1 ++ "=" ++ showVal e.2) ++ "]"
+
+def showGet : Option Val → String
+  | some v => "some:" ++ showVal v
+  | none => "none"
+
+def showRec (o : Option Val) : String :=
+  match o with
+  | none => "none"
+  | some b => match decRec b with
+    | some (tag, body) => s!"rec:{tag}:{showVal body}"
+    | none => "err"
+
+def showDump (t : Tbl) : String :=
+  "[" ++ ",".intercalate (t.map fun e => showDb e.1.1 ++ ":" ++ toHex e.1.2 ++ "=" ++ showVal e.2) ++ "]"
+
+/-- `Store::get_db`: unknown db key → `OtherErr`; LMDB: empty key → `MDB_BAD_VALSIZE` -/
+def readOk (st : St) (k : Key) : Bool := st.dbs.contains k.1 && 0 < k.2.length
+/-- puts additionally refuse keys longer than 511 bytes -/
+def writeOk (st : St) (k : Key) : Bool := st.dbs.contains k.1 && validKey k.2
+
+def verdictErr (impl : String) : Verdict := cmpModel "err" impl
+
+/-- `DatabaseIterator` over table `t`.  Small tables run the paged loop of the model
+(`iterPaged PAGE`, one `tget` per key like the Rust `db.get` per key - quadratic on lists);
+big tables use `iterSpec`, which `GV.Kv.iterPaged_eq_spec` proves equal on sorted tables
+(sortedness is the invariant `GV.Props.C18.wf_run`). -/
+def iterOf (t : Tbl) (db : Nat) : List (Bytes × Val) :=
+  if t.length ≤ 2500 then iterPaged PAGE t db else iterSpec t db
+
+def doWrite (st : St) (k : Key) (v : Option Val) (impl : String) : St × Verdict :=
+  let ok := match v with | some _ => writeOk st k | none => readOk st k
+  if !ok then (st, verdictErr impl)
+  else if st.m.stack.isEmpty then (st, .unknown)
+  else
+    let op := match v with | some v => Op.put k v | none => Op.del k
+    ({ st with m := step st.m op }, cmpSpec "ok" impl)
+
+def handle (st : St) (args : List String) (impl : String) : St × Verdict :=
+  match args with
+  | ["new", dbs] =>
+    let inner := ((dbs.drop 1).dropEnd 1).toString
+    match (inner.splitOn ",").mapM parseDb with
+    | some l => ({ m := {}, dbs := l, held := none }, .ok)
+    | none => (st, .unknown)
+  | ["begin"] =>
+    if st.m.stack.isEmpty then ({ st with m := step st.m .begin }, cmpSpec "ok" impl) else (st, .unknown)
+  | ["child"] =>
+    if st.m.stack.isEmpty then (st, .unknown) else ({ st with m := step st.m .child }, cmpSpec "ok" impl)
+  | ["commit"] =>
+    if st.m.stack.isEmpty then (st, .unknown) else ({ st with m := step st.m .commit }, cmpSpec "ok" impl)
+  | ["drop"] =>
+    if st.m.stack.isEmpty then (st, .unknown) else ({ st with m := step st.m .drop }, cmpSpec "ok" impl)
+  | ["crash", _] => ({ st with m := crash st.m, held := none }, .ok)
+  | ["reopen"] =>
+    if st.m.stack.isEmpty then ({ st with held := none }, cmpSpec "ok" impl) else (st, .unknown)
+  | ["put", db, k, v] => match parseDb db, parseHex k, parseVal v with
+    | some db, some k, some v => doWrite st (db, k) (some v) impl
+    | _, _, _ => (st, .unknown)
+  | ["putser", db, k, tag, body] => match parseDb db, parseHex k, nat? tag, parseHex body with
+    | some db, some k, some tag, some body => doWrite st (db, k) (some (encRec tag body)) impl
+    | _, _, _, _ => (st, .unknown)
+  | ["del", db, k] => match parseDb db, parseHex k with
+    | some db, some k => doWrite st (db, k) none impl
+    | _, _ => (st, .unknown)
+  | ["get", db, k] => match parseDb db, parseHex k with
+    | some db, some k =>
+      if readOk st (db, k) then (st, cmpSpec (showGet (bget st.m (db, k))) impl) else (st, verdictErr impl)
+    | _, _ => (st, .unknown)
+  | ["getrec", db, k] => match parseDb db, parseHex k with
+    | some db, some k =>
+      if readOk st (db, k) then (st, cmpModel (showRec (bget st.m (db, k))) impl) else (st, verdictErr impl)
+    | _, _ => (st, .unknown)
+  | ["exists", db, k] => match parseDb db, parseHex k with
+    | some db, some k =>
+      if readOk st (db, k) then (st, cmpSpec (showBool (bexists st.m (db, k))) impl) else (st, verdictErr impl)
+    | _, _ => (st, .unknown)
+  | ["iter", db] => match parseDb db with
+    | some db =>
+      if st.dbs.contains db then (st, cmpSpec (showItems (iterOf (view st.m) db)) impl) else (st, verdictErr impl)
+    | none => (st, .unknown)
+  | ["read-outside", _who, "get", db, k] => match parseDb db, parseHex k with
+    | some db, some k =>
+      if readOk st (db, k) then (st, cmpSpec (showGet (sget st.m (db, k))) impl) else (st, verdictErr impl)
+    | _, _ => (st, .unknown)
+  | ["read-outside", _who, "getrec", db, k] => match parseDb db, parseHex k with
+    | some db, some k =>
+      if readOk st (db, k) then (st, cmpModel (showRec (sget st.m (db, k))) impl) else (st, verdictErr impl)
+    | _, _ => (st, .unknown)
+  | ["read-outside", _who, "exists", db, k] => match parseDb db, parseHex k with
+    | some db, some k =>
+      if readOk st (db, k) then (st, cmpSpec (showBool (sexists st.m (db, k))) impl) else (st, verdictErr impl)
+    | _, _ => (st, .unknown)
+  | ["read-outside", _who, "iter", db] => match parseDb db with
+    | some db =>
+      if st.dbs.contains db then (st, cmpSpec (showItems (iterOf st.m.committed db)) impl) else (st, verdictErr impl)
+    | none => (st, .unknown)
+  | ["it-open", _who, db] => match parseDb db with
+    | some db =>
+      if st.dbs.contains db then ({ st with held := some (iterOf st.m.committed db) }, cmpSpec "ok" impl)
+      else (st, verdictErr impl)
+    | none => (st, .unknown)
+  | ["it-next", _who, n] => match nat? n, st.held with
+    | some n, some l => ({ st with held := some (l.drop n) }, cmpSpec (showItems (l.take n)) impl)
+    | _, _ => (st, .unknown)
+  | ["it-close", _who] => ({ st with held := none }, cmpSpec "ok" impl)
+  | ["needs-resize", m, u, c] => match nat? m, nat? u, nat? c with
+    | some m, some u, some c =>
+      let r := needsResize m u c
+      (st, cmpModel s!"{showBool r.1} {r.2}" impl)
+    | _, _, _ => (st, .unknown)
+  | ["obs"] => (st, cmpSpec (showDump st.m.committed) impl)
+  | _ => (st, .unknown)
 
 end GV.Drv.KvD
